@@ -1,6 +1,6 @@
 --------------------------------- MODULE Nsx ---------------------------------
 (* NSX-T manager: gateway policies, groups and services with the REST calls the tool emits. *)
-(* pol  : policy id -> (rule id -> rule)     rule = [seq, action, dir, src, dst, svc]       *)
+(* pol  : policy id -> (rule id -> rule)     rule = [seq, action, dir, src, dst, svc, opt]       *)
 (* grp  : group id -> set of addresses       svc : service id -> definition                 *)
 (* xid  : group id -> id of the (single) IP address expression of the group                 *)
 (* src/dst are "ANY", a literal address or "g:<group id>"; svc is "ANY" or "s:<service id>" *)
